@@ -347,8 +347,11 @@ func smallHistory(r *core.Rng, idx int) (*hist.History, []*hist.Table) {
 	o.NoJSON = true
 	ntx := 3 + r.Intn(4)
 	rot := 0
-	if idx%2 == 1 {
-		rot = 1
+	switch idx % 4 {
+	case 1:
+		rot, o.Switch = 1, 1 // the file ends with a ROTATE event
+	case 3:
+		rot, o.Switch = 1, 2 // server restart: no ROTATE event, ids possibly re-bound
 	}
 	return gen.RandomHistory(r, o, ntx, rot)
 }
